@@ -16,9 +16,15 @@ import Aegean.Model.C14
 namespace Drv.C14
 open Drv Aegean.Model.C14
 
-def genLeaves : Leaves Float := ⟨Gen.C14.xoff, Gen.C14.yoff, Gen.C14.modelVal⟩
+def genLeaves : Leaves Float :=
+  { xoff := Gen.C14.xoff, yoff := Gen.C14.yoff, modelVal := Gen.C14.modelVal,
+    skipLoX := Gen.C14.skipLoX, skipHiX := Gen.C14.skipHiX, skipOpsX := Gen.C14.skipOpsX,
+    skipLoY := Gen.C14.skipLoY, skipHiY := Gen.C14.skipHiY, skipOpsY := Gen.C14.skipOpsY,
+    thrFrac := Gen.C14.thrFrac, thrSigma := Gen.C14.thrSigma, maskOp := Gen.C14.maskOp,
+    residPlus := Gen.C14.residPlus }
 
-def kF : Float := (fwhm2cc : Float)
+/-- FWHM2CC as the tree under test defines it (regenerated), at `ln2 = log 2` -/
+def kF : Float := Gen.C14.fwhm2ccOf (RX.log (R.ofNat 2 : Float))
 
 def floats (ws : List String) : Option (List Float) := ws.mapM parseFloat?
 
@@ -65,7 +71,7 @@ def handle (ws : List String) : String :=
   | "winp" :: nx :: ny :: rest =>
     match nx.toNat?, ny.toNat?, floats rest with
     | some nx, some ny, some [xo, yo, sx, sy, th] =>
-      showWin (windowWith onAxisPinned genLeaves nx ny ⟨xo, yo, sx, sy, th⟩)
+      showWin (windowWith onAxisPinned onAxisPinned genLeaves nx ny ⟨xo, yo, sx, sy, th⟩)
     | _, _, _ => "bad-op"
   | "model" :: nx :: ny :: n :: rest =>
     match nx.toNat?, ny.toNat?, n.toNat?, floats rest with
